@@ -551,17 +551,30 @@ class CaseWhen(Statement):
                 return TextBlock("null;")
             return block.write(scope)
 
+        # The choices of a case statement must be unique.
+        # Only the first of multiple equal patterns can match,
+        # branches that repeat a choice are not emitted.
+        branches = []
+        used_choices = set()
+
+        for value, block in self._branches:
+            choice = value.write(scope, target_hint=cond.result)
+
+            if choice not in used_choices:
+                used_choices.add(choice)
+                branches.append((choice, block))
+
         return TextBlock(
             [
                 f"case {cond.write(scope, constrain=True)} is",
                 *[
                     IndentBlock(
                         [
-                            f"when {value.write(scope, target_hint=cond.result)} =>",
+                            f"when {choice} =>",
                             IndentBlock(write_block(block)),
                         ]
                     )
-                    for value, block in self._branches
+                    for choice, block in branches
                 ],
                 (
                     IndentBlock(["when others =>", IndentBlock("null;")])
